@@ -105,6 +105,41 @@ class Card:
         return 'card:' + str(self) if not spec else format(str(self), spec)
 
 
+class Gauge:
+    """user object whose `value` is a PROPERTY with a side effect (it prints) and that fails on an empty gauge: no operation on
+    the proxy may read it behind the student's back"""
+    def __init__(self, readings):
+        self.readings = list(readings)
+
+    @property
+    def value(self):
+        print('reading the gauge')
+        return self.readings[-1]
+
+    def __len__(self):
+        return len(self.readings)
+
+    def __iter__(self):
+        return iter(self.readings)
+
+    def __eq__(self, other):
+        return isinstance(other, Gauge) and self.readings == list(other.readings)
+
+    def __hash__(self):
+        return hash(tuple(self.readings))
+
+    def __add__(self, other):
+        if isinstance(other, int):
+            return Gauge(self.readings + [other])
+        return NotImplemented
+
+    def __getitem__(self, k):
+        return self.readings[k]
+
+    def __repr__(self):
+        return 'Gauge(%r)' % (self.readings,)
+
+
 class Plain:
     """user object without dunders"""
     def __repr__(self):
@@ -113,7 +148,7 @@ class Plain:
 
 PLAIN = Plain()
 VALUES = {'int': [3, 0, -2], 'float': [2.5, -1.5], 'bool': [True, False], 'str': ['ab', ''], 'list': [[1, 2], []], 'tuple': [(1, 2), ()],
-          'dict': [{'a': 1}], 'set': [{1, 2}], 'none': [None], 'complex': [1 + 2j], 'money': [Money(5)], 'card': [Card(11, 'hearts')], 'plain': [PLAIN], 'nan': [float('nan')], 'odd': [Odd()]}
+          'dict': [{'a': 1}], 'set': [{1, 2}], 'none': [None], 'complex': [1 + 2j], 'money': [Money(5)], 'card': [Card(11, 'hearts')], 'gauge': [Gauge([4, 7]), Gauge([])], 'plain': [PLAIN], 'nan': [float('nan')], 'odd': [Odd()]}
 BINOPS = {'add': operator.add, 'sub': operator.sub, 'mul': operator.mul, 'matmul': operator.matmul, 'truediv': operator.truediv,
           'floordiv': operator.floordiv, 'mod': operator.mod, 'divmod': divmod, 'pow': pow, 'lshift': operator.lshift,
           'rshift': operator.rshift, 'and': operator.and_, 'xor': operator.xor, 'or': operator.or_,
